@@ -37,7 +37,7 @@ RULE = ("Twin runs. Stream S and S' = S with the VALUES (prices, payloads, table
 ASSUMPTIONS = ["value perturbations only: adding/removing future timestamps legitimately changes `done`"]
 REQUIRED = ["C02:no-lookahead", "C02:next-trades-independent-of-future", "C02:xy-no-lookahead"]
 REQUIRED_CATS = ["decision-refused-then-resubmitted", "earlier-episode-on-a-later-window", "xy-features-stamped-intraday", "xy-twin-in-fresh-interpreter", "xy-rate-off-price-dates", "transmitter-used-before-with-larger-latency", "xy-prefitted-transformer", "custom-events-from-table", "xy-sparse-features", "generic", "xy", "xy-nan-straddles-cut", "xy-row-missing-at-cut", "cut:first", "cut:last", "latency>0", "late-fold", "markov", "warmup"]
-TECHNIQUE = "runtime monitoring: twin executions on streams that agree up to the cut, compared call by call on canonical digests"
+TECHNIQUE = "runtime monitoring: twin executions on streams that agree up to the cut, compared call by call on canonical digests (tabular twins partly run in a fresh interpreter)"
 LEVEL_TEXT = ("Exploration by twin runs: the same real environment is executed on two inputs that agree on everything stamped <= t; any "
               "difference in an output landing at or before t is a witness of look-ahead. Fixed actions prevent a leak from hiding "
               "behind a policy.")
